@@ -60,17 +60,27 @@ class ShapeGen:
         c = r.random()
         if c < 0.40:
             ms = []
+            used = set()
             for _ in range(r.randint(1, 3)):
                 m, _nm = self.member(depth - 1)
+                if _nm in used:
+                    continue           # names are reused across levels, never between siblings
+                used.add(_nm)
                 ms.append(m)
             if r.random() < 0.2:
                 ms.insert(r.randrange(len(ms) + 1), [None, ["Const", tag(b"\x7e"), None]])
             return ["Struct", ms]
         if c < 0.50:
             ms = []
+            used = set()
             for _ in range(r.randint(1, 3)):
                 m, _nm = self.member(depth - 1)
+                if _nm in used:
+                    continue
+                used.add(_nm)
                 ms.append(m)
+            if not ms:
+                return self.leaf()
             return ["Sequence", ms]
         if c < 0.62:
             return ["Array", r.randint(1, 3), self.node(depth - 1)]
@@ -89,8 +99,12 @@ class ShapeGen:
 
     def top(self):
         ms = []
+        used = set()
         for _ in range(self.rng.randint(1, 3)):
-            m, _ = self.member(self.maxdepth - 1)
+            m, nm = self.member(self.maxdepth - 1)
+            if nm in used:
+                continue
+            used.add(nm)
             ms.append(m)
         return ["Struct", ms]
 
